@@ -70,9 +70,39 @@ def small_scope_cases(ctx):
     ctx.notes.append("exhaustive small scope: every formula with at most two connectives over two boolean leaves")
 
 
+def variant_sharing_cases(ctx):
+    """one sub-proposition id written with two classes of the same definition under two parents (All(x,y) and
+    AtLeast(2,[x,y]); Any / AtLeast(1); AtMost(k) / AtLeast(-k, sign=-1); Xor / ExactlyOne).  The unchanged errors() rejects
+    such models, so they are skipped; if validation accepts them they are validated models and C01 must hold for them."""
+    rng = ctx.rng
+    g = TreeGen(rng, n_leaves=4, max_depth=2)
+    for _ in range(40 if ctx.quick else 300):
+        names = rng.sample("abcd", 3)
+        S = lambda i: {"c": "str", "id": i}
+        base = rng.choice([{"c": "All", "args": [S(names[0]), S(names[1])]}, {"c": "Any", "args": [S(names[0]), S(names[1])]},
+                           {"c": "AtMost", "v": 1, "args": [S(names[0]), S(names[1])]}, {"c": "Xor", "args": [S(names[0]), S(names[1])]}])
+        if rng.random() < 0.6: base["id"] = rng.choice(["B", "N1", "A0"])
+        other = g.class_variant(base)
+        p1 = {"c": rng.choice(["All", "Any"]), "args": [base, S(names[2])]}
+        p2 = {"c": rng.choice(["All", "Any", "AtMost"]), "args": [other, S("e")]}
+        if p2["c"] == "AtMost": p2["v"] = 1
+        a = {"c": rng.choice(["Any", "All"]), "args": [p1, p2]}
+        if rng.random() < 0.6: a["id"] = rng.choice(["R", "Z9", "N7"])
+        try:
+            o = build(a)
+        except Exception:
+            continue
+        if is_var(o) or not well_formed(snap(o)) or o.errors():
+            ctx.skip("class-variant sharing rejected by errors()")
+            continue
+        ctx.tags["class-variant-sharing-accepted-by-errors"] += 1
+        do_case(ctx, {"ast": a})
+
+
 def run(ctx):
     small_scope_cases(ctx)
-    n_models = (200 if ctx.quick else 1500) * (3 if ctx.search else 1)
+    variant_sharing_cases(ctx)
+    n_models = (400 if ctx.quick else 2000) * (3 if ctx.search else 1)
     for _ in range(n_models):
         a, o, t = gen_valid(ctx.rng, ctx.quick)
         do_case(ctx, {"ast": a})
